@@ -74,13 +74,20 @@ CHECKS.update({
    engine2="GribiClient+GribiClientProc"),
 })
 CHECKS["C19"] = dict(ref="DESIGN.md 5/C19", engine="GribiServer",
-   text="The unmodified compliance suite runs against one long-lived reference server per forward-reference mode (bufconn) in permuted orders and with different starting election ids: every test must meet its expected verdict whatever ran before it, and the complete wire trace of the run (every ModifyRequest/Response, Get, Flush, with the server's RIB and session state) is validated by TLC against GribiServer - so the suite's verdicts are tied to a server the specification accepts. A catalogue of wrappers that break exactly one protocol requirement (no FIB ack, Get withholds an entry, Flush ignored, election response echoes the request, repeated session parameters accepted) is run against the tests written for that requirement (spec/compliance_map.json): each must fail, and TLC must reject the wrapper's wire trace at that requirement.",
+   text="The unmodified compliance suite runs against one long-lived reference server per forward-reference mode (bufconn) in permuted orders and with different starting election ids: every test must meet its expected verdict whatever ran before it, and the complete wire trace of the run (every ModifyRequest/Response, Get, Flush, with the server's RIB and session state) is validated by TLC against GribiServer - so the suite's verdicts are tied to a server the specification accepts. A catalogue of wrappers that break exactly one protocol requirement (no FIB ack, Get withholds an entry, Flush ignored, election response echoes the request, repeated session parameters accepted, idempotent delete failed, non-primary programmed, error reason dropped, forward references rejected) is run against the tests written for that requirement (spec/compliance_map.json): each must fail, and TLC must reject the wrapper's wire trace at that requirement.",
    note="permutations are sampled; tests with two simultaneously active clients are excluded from message-grain trace validation",
    tech="explicit TLA+ spec (TLC) as wire-trace oracle for compliance-suite runs in permuted orders; fault-injection wrappers with pinned expected failures")
 CHECKS["C08"]["text"] = CHECKS["C08"]["text"].replace("The election gate of the Flush RPC is decided by the server-level specification (see DESIGN).", "Server part (FlushGate): the complete decision table of network-instance and election fields against the learnt election id is part of GribiServer.FlushVerdict; every Flush RPC's status/reason and effect are compared on the real server.")
 CHECKS["C08"]["note"] = "trusted: TLC, hooks; bounded constants"
 CHECKS["C08"]["engine"] = "GribiRIB+GribiServer"
 CHECKS["C12"]["engine"] = "GribiRIB+GribiServer"
+RIBCS = (" Overlapping calls: GribiRIBCS models AddEntry / DeleteEntry / Flush / AddNetworkInstance at the grain of the code's critical sections (check, install, reference "
+         "counting and retry walk are separate sections); TLC enumerates the interleavings of 13 scenarios and 144 call pairs (invariants hold with Serial = TRUE, the interleavings "
+         "that break them at the code's grain are the open findings) and the schedules are replayed through gates in rib/rib.go, the tables, counters, held operations, gate reached "
+         "and call results being validated by TLC after every segment.")
+for _p in ("C02", "C03", "C06", "C08", "C11"):
+    CHECKS[_p]["text"] += RIBCS
+    CHECKS[_p]["engine2"] = CHECKS[_p].get("engine2", CHECKS[_p]["engine"]) + "+GribiRIBCS"
 NA = {}
 def main():
     import families
@@ -122,6 +129,7 @@ def main():
             {"name": "GribiClient", "path": "/verif/spec/GribiClient.tla", "serves_properties": ["C13", "C14"], "kind_free_text": "client library spec + GribiClient_MC + GribiClientTrace; vh client-run with scripted stub stream"},
             {"name": "GribiServerSched", "path": "/verif/spec/GribiServerSched.tla", "serves_properties": ["C04", "C05", "C11"], "kind_free_text": "handler-segment grain spec of concurrent Modify sessions and Flush on top of GribiServerCS + GribiServerSched_MC (all interleavings, schedule emission) + GribiServerSchedTrace; vh sched-run replays schedules through the server's gates"},
             {"name": "GribiRIBConc", "path": "/verif/spec/GribiRIBConc.tla", "serves_properties": ["C01", "C08"], "kind_free_text": "lock-grain spec of Flush over several network instances vs concurrent installs (linearizability) + GribiRIBConc_MC + GribiRIBConcTrace; vh lin-run records stamped concurrent histories of the real rib package"},
+            {"name": "GribiRIBCS", "path": "/verif/spec/GribiRIBCS.tla", "serves_properties": ["C02", "C03", "C06", "C08", "C11"], "kind_free_text": "critical-section grain spec of overlapping RIB calls (check / install / count / retry walk, Flush holding its locks) + GribiRIBCS_MC (scenario catalogue, all interleavings, schedule emission) + GribiRIBCSTrace; vh ribcs-run replays schedules through the gates of rib/rib.go"},
             {"name": "GribiElectionInd", "path": "/verif/spec/GribiElectionInd.tla", "serves_properties": ["C05"], "kind_free_text": "election core with unbounded ids; inductive invariant (ElecIsMax, PrimaryAnnouncedIt) discharged by apalache-mc (base case + induction step)"},
             {"name": "GribiGetProc", "path": "/verif/spec/GribiGetProc.tla", "serves_properties": ["C10", "C07"], "kind_free_text": "goroutine-grain spec of the Get RPC (producer holding the read lock, consumer, writer); TLC safety + liveness under weak fairness; bound through directed abandoned / slow-consumer Gets in vh srv-run"},
             {"name": "GribiModifyProc", "path": "/verif/spec/GribiModifyProc.tla", "serves_properties": ["C10", "C09"], "kind_free_text": "goroutine-grain spec of one Modify RPC (handler, receive loop, result pump, unbuffered channels, session-table lock); TLC safety + liveness; bound through directed mid-batch write failures in vh srv-run"},
